@@ -46,6 +46,8 @@ def C01(V, tier):
     # loops whose body holds state between elements (count windows, keyed aggregations): the sequential meaning
     # evaluates every iteration afresh
     fam += gen.loop_programs(rng, k // 2, nested=False, force="gbwin") + gen.loop_programs(rng, k // 4, nested=False, force="gbsum")
+    # keyed joins whose sides were partitioned by different API calls (group_by vs the two-phase group_by_* forms)
+    fam += gen.join_programs(rng, k // 2, keyed_mixed=True)
     for i, p in enumerate(fam):
         p["name"] = f"f{i}_" + p["name"]
         p["prop"] = "C01"
